@@ -8,6 +8,7 @@
    - radial distribution function: exact histogram counts with bin edges at half-integers (no lattice distance is on an edge);
    - total mass and cell volume for the density. *)
 EXTENDS IntVec, TLC, Json
+SetToSeq2(S) == LET RECURSIVE F(_) F(T) == IF T = {} THEN <<>> ELSE LET x == CHOOSE y \in T : \A z \in T : y[1] < z[1] \/ (y[1] = z[1] /\ y[2] <= z[2]) IN <<x>> \o F(T \ {x}) IN F(S)
 \* ---- contacts -----------------------------------------------------------------------------------
 HasCA(atoms, r) == \E i \in 1..Len(atoms) : atoms[i].res = r /\ atoms[i].name = "CA"
 Members(atoms, residues, scheme, r) ==
@@ -24,6 +25,11 @@ PairD2(pos, cell, periodic, i, j) == IF periodic THEN TrueMin2(Sub(pos[i], pos[j
 ContactD2(atoms, residues, pos, cell, periodic, scheme, r, s) ==
    LET A == Members(atoms, residues, scheme, r)  B == Members(atoms, residues, scheme, s) IN
    IF A = {} \/ B = {} THEN -1 ELSE MinOf({ PairD2(pos, cell, periodic, i, j) : i \in A, j \in B })
+\* every designated atom-pair squared distance of a residue pair (the soft minimum beta / log sum exp(beta / d_i) runs over all of them;
+\* it is evaluated in doubles by the harness from these exact integers)
+ContactAllD2(atoms, residues, pos, cell, periodic, scheme, r, s) ==
+   LET A == Members(atoms, residues, scheme, r)  B == Members(atoms, residues, scheme, s)
+       ps == SetToSeq2(A \X B) IN [m \in 1..Len(ps) |-> PairD2(pos, cell, periodic, ps[m][1], ps[m][2])]
 \* ---- centres, radius of gyration, tensors -----------------------------------------------------
 SumOverAtoms(n, f(_)) == LET S[i \in 0..n] == IF i = 0 THEN 0 ELSE S[i-1] + f(i) IN S[n]
 ComNum(atoms, pos) == [k \in 1..3 |-> SumOverAtoms(Len(atoms), LAMBDA i : atoms[i].m * pos[i][k])]
